@@ -401,8 +401,12 @@ def buffer_case(draw):
     uniq = np.unique(recs[:, :2], axis=0)
     K = draw(st.integers(1, min(4, len(uniq))))
     idx = draw(st.lists(st.integers(0, len(uniq) - 1), min_size=K, max_size=K, unique=True))
-    return {"n": n, "degrees": degrees, "table": table, "centers": uniq[idx].tolist(), "chunksize": draw(chunksize_for(n)),
-            "buffersize": draw(st.sampled_from([-1, 0, 1, 2, 3, 7, n, 10 * n])), "workers": draw(st.sampled_from([1, 1, 3])), "tape": draw(st.lists(st.integers(0, 5), max_size=10))}
+    # chunk sizes biased to many small chunks; buffer sizes around small multiples of what one chunk
+    # contributes to a patch, so that a writer holds several shards when it decides to flush
+    c = draw(st.one_of(chunksize_for(n), st.integers(1, 4)))
+    per_patch = max(1, c // K)
+    return {"n": n, "degrees": degrees, "table": table, "centers": uniq[idx].tolist(), "chunksize": c,
+            "buffersize": draw(st.sampled_from([-1, 0, 1, 2, 3, 7, n, 10 * n] + [m * per_patch + d for m in (2, 3, 4, 5) for d in (0, 1)])), "workers": draw(st.sampled_from([1, 1, 3])), "tape": draw(st.lists(st.integers(0, 5), max_size=10))}
 
 
 def run_buffer(case):
@@ -448,5 +452,5 @@ def components():
     return [
         Component("create", case_strategy(), run_case, quick=1000, thorough=30_000),
         Component("random", random_case(), run_random, quick=300, thorough=8_000),
-        Component("buffers", buffer_case(), run_buffer, quick=400, thorough=10_000),
+        Component("buffers", buffer_case(), run_buffer, quick=1500, thorough=10_000),
     ]
